@@ -22,7 +22,7 @@ CLAIMED = {
    text="Bounded: for every pair of rationals with one-limb (32-bit) numerator/denominator and every sign, two-limb integers, and NaN, the real partial_cmp returns the numeric order / None; area::calc takes the branch the definition prescribes for 5 area shapes with symbolic popped values (integers, small fractions, NaN) and symbolic count. Nothing is claimed for multi-limb fractions.",
    note="Trusted: Kani, CBMC, CaDiCaL. Oracle: two u64 products. Assumes canonical inputs only as far as 'equal value => equal structure'. The calc harnesses use the one-limb model of BigNum::mul."),
  "C09": dict(cat="model_checking", ref="DESIGN.md §3 C09",
-   text="Bounded, partial: the reading direction (from_string_base: every ASCII text of 1-4 characters, bases 2/10/16/36, optional minus, rejection of foreign characters), the base-range errors of both directions, and one-digit rendering for every base are decided by SAT. Rendering of more than one digit, the integer round trip and the rational text round trip are NOT decided (strings of value-dependent length are beyond the symbolic executor) - see evidence.outside_claim.",
+   text="Bounded, partial: the reading direction (from_string_base: every ASCII text of 1-4 characters, bases 2/10/16/36, optional minus, rejection of foreign characters), the base-range errors of both directions, one-digit rendering for every base, and the glue of Num::from_string for the text shapes 'A', '-A' and the NaN text (sign detection/stripping, which digit run becomes the numerator, reduction, sign re-applied; 16-bit A symbolic, over a contract model of BigNum::from_string) are decided by SAT. The fraction shapes 'A/B', '-A/B' of Num::from_string (no verdict within 23 min; thorough/stretch), rendering of more than one digit, the integer round trip and the rational text round trip are NOT decided (strings of value-dependent length are beyond the symbolic executor) - see evidence.outside_claim.",
    note="Trusted: Kani, CBMC, CaDiCaL, one-limb models of BigNum::{mul,add,new,rem,div}."),
  "C10": dict(cat="model_checking", ref="DESIGN.md §3 C10",
    text="Bounded: ONE opt_execute call with stack 0, 1 or 2 selected (before the command or by the command itself) for every command kind and all stack values: it returns 'gave up' with the untouched pre-state, the reader stub is never called, the exit stub is never reached, nothing is written. The 100-jump budget (endless label-jump loop and endless white-heart loop: gives up after 100 jumps, state rolled back) is decided in the thorough tier only: the two harnesses unwind the real loop 204 times and need about 3 h each.",
